@@ -8,6 +8,7 @@ CONSTANT AOs = {FALSE}
 CONSTANT MaxPending = 1
 CONSTANT MaxInter = 2
 CONSTANT Acts <- BehActs
+CONSTANT PurgeRace = FALSE
 CONSTANT RecordReads = TRUE
 CONSTANT HitSteps = FALSE
 SPECIFICATION Spec
